@@ -52,6 +52,8 @@ func (*float64Scalar) CoerceIn(v interface{}) (interface{}, error) {
 		var f float64
 		if f, err = strconv.ParseFloat(tv, 64); err == nil {
 			v = f
+		} else {
+			v = nil
 		}
 	default:
 		v = nil
@@ -94,6 +96,8 @@ func (t *float64Scalar) CoerceOut(v interface{}) (interface{}, error) {
 		var f float64
 		if f, err = strconv.ParseFloat(tv, 64); err == nil {
 			v = f
+		} else {
+			v = nil
 		}
 	default:
 		v = nil
